@@ -119,7 +119,12 @@ out.append("""
 Observed but outside the literal text of any property (modelled as-is, no alarm): `quadratic_assignment` with an
 asymmetric distance matrix (uses dist[j][l] twice), `magic_square`'s uniqueness constraint is necessary but not
 sufficient for distinct entries, `cross_zero=True` admits every sum in 0..ub_c-lb_c, the constant of the 'unbalanced'
-penalisation, `gnm_random_bqm` always picking the first m pairs, `doped` dropping isolated declared nodes, a CQM does
+penalisation, `gnm_random_bqm` always picking the first m pairs (now a theorem about the faithful model:
+`C17_gnm_selection_is_prefix`, `C17_gnm_draws_irrelevant`), `doped` dropping isolated declared nodes and summing the draws of
+a repeated edge (`C17_doped_keeps_all_nodes_refuted`, `C17_doped_repeated_edge_refuted`), `frustrated_loop` with a
+non-integer `R` exceeding it (`frustrated_loop(4,3,R=1.5,seed=0)` has |J| = 2; `C17_fl_cutoff_fractional_R_refuted`, while
+`C17_fl_cutoff_integer_R` holds) and `plant_solution=False` always closing a loop with exactly one anti-ferromagnetic
+coupler (`C17_fl_noplant_closing_is_afm`), a CQM does
 not accept a BQM view (`cqm.set_objective(bqm.spin)` raises TypeError), `Variables([2**64+1])` raises OverflowError,
 `BQM('SPIN').add_quadratic(np.int64(123), ('x', -3), 1.0)` raises NumPy's ambiguous-truth-value ValueError (the `u == v`
 self-loop test of the model builders is not hash-first; such a model cannot be built at all, so the generators keep bare
@@ -162,9 +167,9 @@ nmiss = sum(1 for p, k, m in rows if missed_on_arrival(p, k, m))
 ncaught_now = sum(1 for p, k, m in rows if caught_now(m))
 ROUNDS = sorted({round_of(k) for p, k, m in rows})
 per_round = {r: [(p, k, m) for p, k, m in rows if round_of(k) == r] for r in ROUNDS}
-out.append(f"\n### 10.4 Seeded changes (independent sub-agents; `seeded/<id>/m<k>/` first round, `r2m<k>/` ... `r5m<k>/` rounds two to five)\n\n"
+out.append(f"\n### 10.4 Seeded changes (independent sub-agents; `seeded/<id>/m<k>/` first round, `r2m<k>/` ... `r6m<k>/` rounds two to six)\n\n"
            "For every property a fresh sub-agent that saw only the property text and its own worktree of /repo produced three changes that "
-           "compile, pass the 2911 tests and break the property, each with a demo; four further rounds (after the repairs, and after each round of strengthening) asked three more per property each, "
+           "compile, pass the 2911 tests and break the property, each with a demo; five further rounds (after the repairs, and after each round of strengthening) asked three more per property each, "
            "different from the earlier ones (the agent was given one-line summaries of those to avoid). Each was re-validated here with `harness/seed_eval.py` "
            "(patch applies to a throw-away worktree, demo passes unchanged / fails changed, suite passes on the changed tree) and the quick check was "
            f"run against it (`VERIF_REPO=<worktree> ./check Cxx`). {len(rows)} changes in total; {len(rows) - nmiss} were caught by the checks as they stood when the change arrived, "
@@ -331,6 +336,38 @@ replayable failing case exists. (3) A run against a seeded worktree uses a priva
 (section 10.6), so that the generated files of concurrent runs never mix. Two further /repo repairs came out of these
 rounds: `0dfb0ff` (`SimulatedAnnealingSampler(num_sweeps=1)` divided by zero when building the beta schedule) and `0fea62d`
 (a deferred `SampleSet.relabel_variables` captured the caller's mapping by reference instead of its value at call time).
+""")
+R6_WHAT = {
+    ('C01', 'r6m1'): "a positional fast path of `cyQMBase._energies` for range-labelled SAMPLES that ignores the order of the MODEL's integer labels (first caught by a source pin only; now also by unlabelled samples on models labelled 2, 0, 1)",
+    ('C01', 'r6m2'): "the DQM's variable-level adjacency merged wrongly by `add_linear_equality_constraint` (a neighbour entered twice, `energies` counts the pair twice)",
+    ('C03', 'r6m2'): "`Expression::remove_variable` re-indexing by label, reached by `fix_variable` on the view of ONE expression whose variable order differs from the model's",
+    ('C04', 'r6m1'): "the SPIN branch for a label repeated in `terms` of the pure-Python `add_linear_equality_constraint` (object storage, `.spin` handle)",
+    ('C04', 'r6m2'): "`qm -= qm`: `__isub__` no longer copying an aliased operand",
+    ('C07', 'r6m3'): "`_random_generator` filling an array of the GIVEN states' dtype: unsigned all-ones states of a SPIN problem get 255 for -1",
+    ('C08', 'r6m3'): "`np.isin` over constraint labels coercing 1 and '1' to one string (hard constraint taken for a soft one)",
+    ('C11', 'r6m1'): "`VartypeView.__deepcopy__` converting the shared copy in place when a model and its view are deep-copied in ONE call",
+    ('C12', 'r6m2'): "a 255-BYTE cap in the LP reader's name copy against labels of up to 255 CHARACTERS (3-byte quotes)",
+    ('C14', 'r6m1'): "a 'record already sorted' shortcut in `slice` using `np.diff` on unsigned / boolean fields",
+    ('C14', 'r6m2'): "`drop_variables` testing membership in the caller's argument: a `str` of one-character labels also drops the label `'xy'`",
+    ('C15', 'r6m1'): "`if not qm` instead of `if qm is None`: a supplied variable-free model with an offset is discarded by `make_quadratic`",
+    ('C17', 'r6m1'): "`combinations(range(3, 7), k)` treated like the integer case",
+}
+r6 = per_round.get(6, [])
+r6_missed = [(p, k, m) for p, k, m in r6 if missed_on_arrival(p, k, m)]
+r6_open = [(p, k) for p, k, m in r6 if not caught_now(m)]
+out.append(f"""
+### 10.8 Round 6
+
+Round 6: {len(r6)} further changes (`seeded/<P>/r6m<k>`), {len(r6_missed)} missed on arrival:
+{'; '.join(f"{p} {k}" + (f" ({R6_WHAT[(p, k)]})" if (p, k) in R6_WHAT else "") for p, k, m in r6_missed) or '-'}.
+Again every miss was a blind spot of a GENERATOR (an argument form, a dtype, a label shape, an aliased operand, a call made
+through a view of one expression), and each was closed by a stream that reaches the changed code, so that the catch is a
+replayable input and not a broken pin; {len(r6) - len(r6_open)} of {len(r6)} are recorded as caught now"""
+           + (f", still open when this section was generated: {', '.join(p + ' ' + k for p, k in r6_open)}" if r6_open else "") + """.
+One false alarm was met and corrected in the machinery while doing so (C14: `concatenate(defaults=...)` casts a fill value
+to the dtype of the field it fills; the new bool / unsigned data vectors are kept out of that op). `harness/seed_eval.py`
+now removes only the replay files of its own run, so evaluations can run next to registered checks.
+ROUND6_BUILDERS
 """)
 t = open(os.path.join(ROOT, 'DESIGN.md')).read()
 i = t.find("\n### 10.2 ")
